@@ -77,14 +77,39 @@ Qed.
 
 Lemma step_inv s op : inv s -> inv (fst (step dsha s op)).
 Proof.
-  intro H. destruct op as [key raw h arg net | newh | fork newh]; cbn [step].
+  intro H. destruct op as [key raw h arg net | newh | fork newh | fork newh | ]; cbn [step].
   - pose proof (request_inv s key raw h arg net H) as R.
     destruct (request dsha s key raw h arg net). exact R.
   - cbn [fst]. unfold inv in *. cbn [w_headers w_cache].
     eapply Forall_impl; [|exact H]. intros [k [e|]] Hk; cbn [slot_ok snd] in *; [|exact I].
     apply entry_ok_app, Hk.
   - cbn [fst]. unfold inv. cbn [w_cache]. constructor.
+  - cbn [fst]. unfold inv. cbn [w_cache]. constructor.
+  - cbn [fst]. unfold inv. cbn [w_cache]. constructor.
 Qed.
+
+(* a restart changes nothing about the headers the wallet verifies against: they are the ones the last
+   extension / reorganisation left, whether or not the chain length changed in that session *)
+Lemma restart_keeps_headers s : w_headers (fst (step dsha s OpRestart)) = w_headers s.
+Proof. reflexivity. Qed.
+
+Lemma final_app s ops1 ops2 : final dsha s (ops1 ++ ops2) = final dsha (final dsha s ops1) ops2.
+Proof.
+  unfold final. revert s. induction ops1 as [|op r IH]; intro s; cbn [app run]; [reflexivity|].
+  destruct (step dsha s op) as [s1 o]. specialize (IH s1).
+  destruct (run dsha s1 (r ++ ops2)) as [s2 os]. destruct (run dsha s1 r) as [s3 os3]. exact IH.
+Qed.
+
+Theorem restart_after_any_history headers0 ops :
+  w_headers (final dsha {| w_headers := headers0; w_cache := [] |} (ops ++ [OpRestart])) =
+  w_headers (final dsha {| w_headers := headers0; w_cache := [] |} ops).
+Proof. rewrite final_app. reflexivity. Qed.
+
+(* in particular an equal-length reorganisation survives the restart *)
+Theorem reorg_survives_restart headers0 ops fork newh :
+  w_headers (final dsha {| w_headers := headers0; w_cache := [] |} (ops ++ [OpReorg fork newh; OpRestart])) =
+  firstn fork (w_headers (final dsha {| w_headers := headers0; w_cache := [] |} ops)) ++ newh.
+Proof. rewrite final_app. reflexivity. Qed.
 
 Lemma run_inv : forall ops s, inv s -> inv (final dsha s ops).
 Proof.
